@@ -224,6 +224,22 @@ func (s *session) exec(op string, id int, args ...string) string {
 			s.tr.emit(fmt.Sprintf("assert %d no-callback-after-stop", id), fmt.Sprintf("late=%d", late))
 			return out
 		}
+	case "nestseq":
+		// args: selector...; judged like two complete passes
+		readonly = true
+		sel := args
+		tsel := append([]string{}, sel...)
+		switch sel[0] {
+		case "range":
+			tsel[1], tsel[2] = tl(sel[1]), tl(sel[2])
+		case "rangeopen":
+			tsel[1] = tl(sel[1])
+		}
+		cmd = fmt.Sprintf("nestseq %d %s", id, strings.Join(tsel, " "))
+		out = s.ro(t, func() string {
+			o, in := t.NestSelf(sel)
+			return renderKVs(o) + "|" + renderKVs(in)
+		})
 	case "selfseq":
 		// a sequence whose contents no specification fixes (Range over a collation tree): the implementation against
 		// itself – every complete pass yields the same pairs, an abandoned pass yields their first `stop`, each
@@ -381,7 +397,7 @@ func replayFile(path string, s *session) error {
 			s.exec(f[0], id, strip(f[2]))
 		case "min", "max", "size", "dump":
 			s.exec(f[0], id)
-		case "seq", "selfseq":
+		case "seq", "selfseq", "nestseq":
 			args := append([]string{}, f[2:]...)
 			for i := range args {
 				args[i] = strip(args[i])
@@ -758,6 +774,19 @@ func (h *history) query() {
 	case roll < 66:
 		h.s.exec("size", h.id)
 	case roll < 76:
+		if r.Intn(5) == 0 {
+			sel := pick(r, [][]string{{"all"}, {"back"}, {"topk", "3"}, {"botk", "4"}})
+			if (h.cfg.alpha || isColl) && r.Intn(3) == 0 && len(h.order) > 0 {
+				sel = []string{"prefix", "-"} // the empty prefix: every key
+				if h.cfg.alpha && r.Intn(2) == 0 {
+					k := unhex(pick(r, h.order))
+					sel = []string{"prefix", hexLit(k[:len(k)/2])}
+				}
+			}
+			h.s.exec("nestseq", h.id, sel...)
+			h.s.tr.stats["nested-self-passes"]++
+			return
+		}
 		st, ps := h.stopPasses()
 		h.s.exec("seq", h.id, "all", st, ps)
 	case roll < 84:
@@ -785,6 +814,10 @@ func (h *history) mergeDance() {
 		keys := []string{hexLit([]byte(inner + "1")), hexLit([]byte(inner + "2")), hexLit([]byte(pre + "b"))}
 		for _, k := range keys {
 			h.insert(k)
+		}
+		// the surviving child is a node of any class
+		for j, n := 0, pick(r, []int{0, 0, 3, 15, 47}); j < n; j++ {
+			h.insert(hexLit(append([]byte(inner), byte(0x40+j))))
 		}
 		h.s.exec("dump", h.id)
 		h.remove(keys[2])
@@ -1204,6 +1237,13 @@ func (h *history) runFan(key func(b int) string) {
 		if n := len(in); n == 5 || n == 17 || n == 49 {
 			check()
 		}
+		if n := len(in); n == 4 || n == 16 || n == 48 || n == 256 {
+			// a class filled to the last slot: every member is looked up
+			for _, m := range in {
+				h.s.exec("get", h.id, key(m))
+			}
+			h.s.tr.stats["fan-full-class-sweeps"]++
+		}
 	}
 	check()
 	isBoundary := func(b int) bool {
@@ -1270,6 +1310,43 @@ func (h *history) probeSweep() {
 		return
 	}
 	r := h.r
+	if h.cfg.alpha || h.cfg.collName != "" {
+		// every beginning of a stored string, looked up and deleted: probes that end inside or exactly at the end of
+		// a compressed path, whatever the lengths involved
+		ks := append([]string{}, h.order...)
+		r.Shuffle(len(ks), func(i, j int) { ks[i], ks[j] = ks[j], ks[i] })
+		for n, k := range ks {
+			if n >= 3 || h.s.dead[h.id] {
+				break
+			}
+			rs := []rune(string(unhex(k)))
+			if h.cfg.alpha {
+				rs = nil
+				for _, b := range unhex(k) {
+					rs = append(rs, rune(b))
+				}
+			}
+			step := 1 + len(rs)/48
+			for cut := len(rs) - 1; cut >= 0 && !h.s.dead[h.id]; cut -= step {
+				var p string
+				if h.cfg.alpha {
+					bs := make([]byte, cut)
+					for i := range bs {
+						bs[i] = byte(rs[i])
+					}
+					p = hexLit(bs)
+				} else {
+					p = hexLit([]byte(string(rs[:cut])))
+				}
+				if _, ok := h.present[h.canonKey(p)]; ok {
+					continue
+				}
+				h.s.exec("get", h.id, p)
+				h.remove(p)
+				h.s.tr.stats["prefix-probes"]++
+			}
+		}
+	}
 	keys := append([]string{}, h.order...)
 	r.Shuffle(len(keys), func(i, j int) { keys[i], keys[j] = keys[j], keys[i] })
 	if len(keys) > 8 {
@@ -1389,10 +1466,13 @@ func histCfgsFor(family string, r *rand.Rand) []histCfg {
 		for i := 0; i < 6; i++ {
 			fs := randSchema(r)
 			// two schemas whose keys are longer than the inline limit are always present
+			// (and the one-byte codecs lead a tuple in every run: what they hand out is appended to)
 			if i == 0 {
-				fs = pick(r, [][]string{{"u64", "u32", "u16"}, {"i64", "u64"}, {"u32", "i64", "u8", "u16"}})
+				fs = pick(r, [][]string{{"u8", "u64", "u32"}, {"u8", "i64", "u64"}, {"u8", "u32", "i64", "u16"}})
 			} else if i == 1 {
-				fs = pick(r, [][]string{{"u16", "s"}, {"i32", "u8", "s"}, {"u64", "s"}})
+				fs = pick(r, [][]string{{"u16", "s"}, {"i32", "u8", "s"}, {"u64", "s"}, {"i8", "s"}})
+			} else if i == 2 {
+				fs = pick(r, [][]string{{"i8", "u16"}, {"i8", "i64", "u32"}, {"i8", "u8", "s"}})
 			}
 			out = append(out, histCfg{spec: "comp " + strings.Join(fs, ","), unis: compUniverses(fs)})
 		}
@@ -1425,6 +1505,12 @@ func runTreeMode(cfg treeRunCfg, tr *transcript) {
 	var feats []map[string]bool
 	for _, fam := range cfg.families {
 		cfgs := histCfgsFor(fam, r)
+		if famSpec := map[string]string{"alpha": "alpha bytes", "unsigned": "num u16", "signed": "num i32", "coll": "coll string root"}[fam]; famSpec != "" {
+			// nodes released by one tree and picked up by the next, both within this family
+			for k := 0; k < 2; k++ {
+				poolDance(s, r, &nextID, famSpec)
+			}
+		}
 		hists := cfg.hists
 		if fam == "alpha" {
 			hists += cfg.hists/2 + 1 // twenty key universes: more of them in every run
@@ -1617,6 +1703,107 @@ func recycleDance(s *session, r *rand.Rand, nextID *int) {
 	s.tr.stats["multi-recycle-dances"]++
 }
 
+// poolDance: one tree releases a node of a given class whose children sat under HIGH branch bytes; the next tree
+// acquires a node of that class – by growing into it or by shrinking into it – for children under LOW bytes.
+// Whatever the released object remembers (a field its clear() forgot, bounds, hints, stale lanes) meets content it
+// does not fit.
+func poolDance(s *session, r *rand.Rand, nextID *int, spec string) {
+	mk := func() (*history, func(int) string) {
+		*nextID++
+		s.newTree(*nextID, spec)
+		hc := histCfg{spec: spec}
+		f := strings.Fields(spec)
+		switch f[0] {
+		case "alpha":
+			hc.alpha = true
+		case "num":
+			hc.numTy = f[1]
+		case "coll":
+			hc.collName = "root"
+			if len(f) > 2 {
+				hc.collName = f[2]
+			}
+		}
+		h := &history{s: s, r: r, id: *nextID, cfg: hc, present: map[string]string{}, feat: map[string]bool{}}
+		return h, fanKeys(spec, r)
+	}
+	a, ka := mk()
+	b, kb := mk()
+	if ka == nil || kb == nil {
+		return
+	}
+	cls := pick(r, []int{16, 48, 48, 256, 4})
+	// children that make a node of that class; that make the class above; count at which a node enters the class
+	// growing; count at which the class above shrinks into it
+	at := map[int]int{4: 3, 16: 10, 48: 30, 256: 60}[cls]
+	above := map[int]int{4: 6, 16: 20, 48: 52, 256: 60}[cls]
+	enter := map[int]int{4: 2, 16: 5, 48: 17, 256: 49}[cls]
+	shrinkAt := map[int]int{4: 3, 16: 12, 48: 37}[cls]
+	high := func(i int) int { return 0xFF - i }
+	low := func(i int) int { return 1 + i }
+	// B is prepared so that its very next step acquires a node of class cls – growing into it, or shrinking into it
+	// (B's own way up passed through the class: whatever it used there has gone back to the pool before A starts)
+	growing := r.Intn(2) == 0 || cls == 256
+	if growing {
+		for i := 0; i < enter-1; i++ {
+			b.insert(kb(low(i)))
+		}
+	} else {
+		for i := 0; i < above; i++ {
+			b.insert(kb(low(i)))
+		}
+		for len(b.order) > shrinkAt+1 {
+			b.remove(b.order[r.Intn(len(b.order))])
+		}
+	}
+	s.exec("dump", b.id)
+	// A: a node of class cls under high bytes, then released (grown out of it, or shrunk out of it)
+	for i := 0; i < at; i++ {
+		a.insert(ka(high(i)))
+	}
+	s.exec("seq", a.id, "all", "0", "1")
+	if r.Intn(2) == 0 && cls != 256 {
+		for i := at; i < above; i++ {
+			a.insert(ka(high(i)))
+		}
+	} else {
+		for len(a.order) > 2 {
+			a.remove(a.order[len(a.order)-1])
+		}
+	}
+	s.exec("dump", a.id)
+	// B's step
+	if growing {
+		b.insert(kb(low(enter)))
+	} else {
+		b.remove(b.order[r.Intn(len(b.order))])
+	}
+	s.exec("dump", b.id)
+	s.exec("size", b.id)
+	s.exec("seq", b.id, "all", "0", "1")
+	s.exec("seq", b.id, "back", "0", "1")
+	s.exec("min", b.id)
+	s.exec("max", b.id)
+	for _, k := range append([]string{}, b.order...) {
+		s.exec("get", b.id, k)
+	}
+	if b.cfg.alpha || b.cfg.numTy != "" {
+		s.exec("seq", b.id, "range", kb(low(0)), kb(low(above)), "0", "1")
+	}
+	// and B goes on living
+	for i := 0; i < 4; i++ {
+		b.insert(kb(0x60 + r.Intn(0x40)))
+	}
+	b.remove(b.order[0])
+	s.exec("dump", b.id)
+	s.exec("seq", b.id, "all", "0", "1")
+	s.exec("dump", a.id)
+	s.exec("seq", a.id, "all", "0", "1")
+	delete(s.trees, a.id)
+	delete(s.trees, b.id)
+	s.tr.stats[fmt.Sprintf("pool-dances-%d", cls)]++
+}
+
 // runMultiMode interleaves operations over several live trees of mixed kinds (C12).
 func runMultiMode(cfg treeRunCfg, tr *transcript) {
 	r := rand.New(rand.NewSource(cfg.seed))
@@ -1625,6 +1812,7 @@ func runMultiMode(cfg treeRunCfg, tr *transcript) {
 	groups := cfg.hists
 	for g := 0; g < groups; g++ {
 		recycleDance(s, r, &nextID)
+		poolDance(s, r, &nextID, pick(r, []string{"alpha string", "alpha bytes", "num u16", "num i32", "num u64"}))
 		n := 2 + r.Intn(cfg.multi-1)
 		var hs []*history
 		for i := 0; i < n; i++ {
@@ -1690,6 +1878,9 @@ func runMultiMode(cfg treeRunCfg, tr *transcript) {
 			}
 			if r.Intn(12) == 0 {
 				recycleDance(s, r, &nextID)
+			}
+			if r.Intn(12) == 0 {
+				poolDance(s, r, &nextID, pick(r, []string{"alpha string", "alpha bytes", "num u16", "num i32", "num u64"}))
 			}
 			if r.Intn(4) == 0 {
 				// a tree misused with keys outside its contract (byte strings with embedded 0x00, one a prefix of
